@@ -272,6 +272,9 @@ def coq_setup(need_model=True):
 
 # ---------------------------------------------------------------- C side
 
+BUILD_NOTES = []
+
+
 def tmp_root():
     d = os.environ.get("VERIF_TMP") or os.path.join(VERIF, "build", "tmp")
     os.makedirs(d, exist_ok=True)
@@ -295,6 +298,17 @@ def build_c_driver(config="pinned", extra_flags="", workdir=None):
         mk.append("%s: %s\n\t$(CC) $(CFLAGS) -c -o $@ %s" % (o, u, u))
     open(os.path.join(d, "Makefile"), "w").write("\n".join(mk) + "\n")
     rc, out, err = run(["make", "-j16", "-s"], cwd=d, timeout=900)
+    if rc != 0 and any(os.path.basename(u).startswith("opt_") for u in units):
+        # optional harness units (opt_*.c reach into library internals); a
+        # refactor may make them uncompilable: link without them
+        dropped = [os.path.splitext(os.path.basename(u))[0] + ".o" for u in units if os.path.basename(u).startswith("opt_")]
+        mk2 = open(os.path.join(d, "Makefile")).read()
+        for o in dropped:
+            mk2 = mk2.replace(" " + o, "", 1)
+        open(os.path.join(d, "Makefile"), "w").write(mk2)
+        rc, out, err = run(["make", "-j16", "-s", "-k"], cwd=d, timeout=900)
+        if rc == 0:
+            BUILD_NOTES.append("config %s: optional harness units dropped (did not build against this tree): %s" % (config, ",".join(dropped)))
     if rc != 0:
         raise RuntimeError("C driver build failed (%s):\n%s" % (config, (out + err)[-4000:]))
     return os.path.join(d, "drv"), d
@@ -716,7 +730,22 @@ class Check:
                 drivers[cfgname] = b
             except RuntimeError as e:
                 if cfgname == "pinned":
-                    raise
+                    # the correspondence itself is broken: the driver no longer
+                    # builds against this tree.  Nothing can be searched.
+                    rp = self.write_replay({"property": prop, "kind": "correspondence-build",
+                                            "detail": "the correspondence driver does not build against the current /repo tree, "
+                                                      "so model and implementation cannot be compared: " + str(e)[-1500:],
+                                            "broken": ["correspondence driver build (config pinned)"],
+                                            "seed": self.seed, "tier": self.tier})
+                    print("VIOLATION property=%s replay=%s no-failing-input-found" % (prop, rp))
+                    cov.update({"evaluations": 0, "distinct_nontrivial": 0, "samples": [], "rule": "driver build failed",
+                                "notes": [str(e)[-500:]]})
+                    ev["coverage"] = cov
+                    ev["wall_s"] = round(time.time() - self.t0, 2)
+                    ev["violations"] = 1
+                    os.makedirs(os.path.join(VERIF, "evidence"), exist_ok=True)
+                    json.dump(ev, open(os.path.join(VERIF, "evidence", prop + ".json"), "w"), indent=1)
+                    return 1
                 self.notes.append("config %s did not build: %s" % (cfgname, str(e)[-300:]))
 
         # 4. cases
@@ -915,7 +944,7 @@ class Check:
             print(v)
 
         cov["known_findings_observed"] = [x[0] for x in self.known_seen]
-        cov["notes"] = self.notes
+        cov["notes"] = self.notes + BUILD_NOTES
         ev["coverage"] = cov
         ev["assumptions"] = getattr(spec, "ASSUMPTIONS", [])
         ev["wall_s"] = round(time.time() - self.t0, 2)
